@@ -150,6 +150,31 @@ where
             x.forget();
             untracked(|| got.push(v));
         }
+    } else if let Take::NextNth(kk, j) = k {
+        // `kk` calls of `next()`, then one `nth(j)` on what is left of the chunk
+        let mut pulled = 0usize;
+        let mut ended = false;
+        while pulled < kk {
+            match values.next() {
+                Some(x) => {
+                    let v = x.val();
+                    x.forget();
+                    untracked(|| got.push(v));
+                    pulled += 1;
+                }
+                None => {
+                    ended = true;
+                    break;
+                }
+            }
+        }
+        if !ended {
+            if let Some(x) = values.nth(j) {
+                let v = x.val();
+                x.forget();
+                untracked(|| got.push(v));
+            }
+        }
     } else {
         let lim = match k {
             Take::First(k) => Some(k),
